@@ -17,7 +17,7 @@ import (
 // (host fault, script error, compile error). Reference: a fresh Eval given the
 // concatenation of the fragments so far.
 
-const c10Prelude = "global (log, op, choose, call, trace, WID, GV)\n"
+const c10Prelude = "global (log, op, choose, call, trace, WID, GV)\nparam (PA, PB)\n"
 
 type c10Result struct {
 	compileErr bool
@@ -61,7 +61,7 @@ func c10Globals(w *sim.World) string {
 
 func c10Run(rc *sim.RunCtx) {
 	t := rc.T
-	g := newGen(t, genConfig{Modules: true, Hosts: true, Consts: t.Bool(1, 2), GlobalVar: true, NoTrace: true, ShadowBuiltins: true, MaxStmts: 14})
+	g := newGen(t, genConfig{Modules: true, Hosts: true, Consts: t.Bool(1, 2), GlobalVar: true, NoTrace: true, ShadowBuiltins: true, Params: true, MaxStmts: 14})
 	_, mods := g.program()
 	stmts := g.Top[:len(g.Top)-1] // without the final return
 	vars := g.TopVars
@@ -124,7 +124,7 @@ func c10Run(rc *sim.RunCtx) {
 		w := sim.NewWorld(ws, nil)
 		w.Globals["GV"] = ugo.Int(5)
 		o := opts
-		return ugo.NewEval(o, w.Globals), w
+		return ugo.NewEval(o, w.Globals, ugo.Int(3), ugo.String("pb")), w
 	}
 
 	sess, sw := newSession()
